@@ -290,3 +290,164 @@ def random_jobs(catname, n, depth, seed, vlevel=1, kind="rand", cfgversion=None)
                          cfg=dict(version=cfgversion or cat["version"], vlevel=vlevel),
                          ops=h, universe=universe))
     return jobs
+
+
+# --------------------------------------------------------------------------
+# TLC-generated histories (spec -> code)
+
+MC_CFG = """SPECIFICATION Spec
+CONSTRAINT Emit
+INVARIANT InvUniqueIds
+INVARIANT InvNoDuplicateLink
+INVARIANT InvQueue
+PROPERTY FailStutters
+PROPERTY NoDanglingAfterRm
+PROPERTY VersionStable
+CHECK_DEADLOCK FALSE
+"""
+
+
+def catalog_json(catname, depth, cfgversion=None, vlevel=1, ops=None):
+    cat = CATALOGUES[catname]
+    ver = cfgversion or cat["version"]
+    pool = project.Pool()
+    out = []
+    ops = ops if ops is not None else build_ops(cat)
+    for op in ops:
+        l = 0
+        if op["text"]:
+            l = pool.add(project.abstract_text(op["text"], cat["version"]))
+        out.append({"k": op["k"], "l": l, "id": op["id"], "id2": op["id2"]})
+    return {"cfg": {"version": ver, "vlevel": vlevel}, "pool": pool.items, "ops": out,
+            "depth": depth}, ops
+
+
+def mc_histories(catname, depth, name, cfgversion=None, vlevel=1, ops=None, timeout=3600):
+    """Run MC_Gfa; returns (list of maximal histories as tuples of op indices (0-based),
+    ops, tlc stats)."""
+    wd = workdir(name)
+    cj, ops = catalog_json(catname, depth, cfgversion, vlevel, ops)
+    cf = os.path.join(wd, "catalog.json")
+    with open(cf, "w") as f:
+        json.dump(cj, f)
+    rc, out = run_tlc("MC_Gfa", MC_CFG, wd, env={"CATALOG_FILE": cf}, workers=NCPU,
+                      timeout=timeout, heap="8g")
+    if rc != 0 or "No error has been found" not in out:
+        raise MachineryError("MC_Gfa failed:\n" + "\n".join(out.splitlines()[-40:]))
+    hs = set()
+    for raw in parse_tuples(out, "H"):
+        v = tla_value(raw)
+        hs.add(tuple(x - 1 for x in v[1]))
+    leaves = [h for h in hs if h and not any((h + (i,)) in hs for i in range(len(ops)))]
+    return sorted(leaves), ops, stats(out), len(hs)
+
+
+def history_jobs(leaves, ops, catname, kind, cfgversion=None, vlevel=1):
+    cat = CATALOGUES[catname]
+    universe = sorted(set(cat["ids"]) | {b for _, b in cat["renames"]})
+    jobs = []
+    for n, h in enumerate(leaves):
+        jobs.append(dict(id="%s-%s-%d" % (kind, catname, n), kind=kind,
+                         cfg=dict(version=cfgversion or cat["version"], vlevel=vlevel),
+                         ops=[ops[i] for i in h], universe=universe))
+    return jobs
+
+
+# --------------------------------------------------------------------------
+# "document first" random histories: load a consistent subset of the catalogue in
+# a random order, then mutate; reaches connected states much faster than uniform ops
+
+def doc_jobs(catname, n, nmut, seed, vlevel=1, kind="doc", cfgversion=None):
+    cat = CATALOGUES[catname]
+    ops = build_ops(cat)
+    rnd = random.Random(seed)
+    adds = [o for o in ops if o["k"] == "add"]
+    others = [o for o in ops if o["k"] != "add"]
+    universe = sorted(set(cat["ids"]) | {b for _, b in cat["renames"]})
+    jobs = []
+    for i in range(n):
+        k = rnd.randint(3, min(len(adds), 12))
+        doc = rnd.sample(adds, k)
+        h = list(doc)
+        for _ in range(nmut):
+            h.append(rnd.choice(others) if rnd.random() < 0.6 else rnd.choice(adds))
+        jobs.append(dict(id="%s-%s-%d" % (kind, catname, i), kind=kind,
+                         cfg=dict(version=cfgversion or cat["version"], vlevel=vlevel),
+                         ops=h, universe=universe))
+    return jobs
+
+
+# --------------------------------------------------------------------------
+# clause -> property attribution (DESIGN 3.2)
+
+CLAUSE_PROP = {
+    "foreign": "C07", "stutter": "C08",
+    "res.notunique": "C09", "names": "C09", "lookup": "C09",
+    "res.version": "C13", "version": "C13",
+    "lines": "C05", "res.refused": "C05", "res.accepted": "C05", "hdr": "C05",
+    "virtual": "C03", "shadow": "C03",
+    "C02.closed": "C02", "C02.sym": "C02", "C02.owner": "C02", "C02.lookup-unlisted": "C02",
+    "broken-listing": "C02",
+    "keys": "C11", "flags": "C12", "components": "C16", "counts": "C16",
+}
+
+
+def attribute(clauses, kind):
+    props = set()
+    for c in clauses:
+        p = CLAUSE_PROP.get(c, "C05")
+        if kind == "perm" and p == "C05":
+            p = "C03"
+        props.add(p)
+    return props
+
+
+def run_pipeline(out, jobs_by_name, mc_specs, prop):
+    """jobs_by_name: {name: [jobs]} random/doc jobs; mc_specs: [(catname, depth)].
+    Fills the Outcome `out` for property `prop`."""
+    all_jobs = []
+    st_states = st_trans = 0
+    nh = 0
+    for catname, depth in mc_specs:
+        leaves, ops, st, n = mc_histories(catname, depth, "mc-%s-%s-%d" % (prop, catname, depth))
+        st_trans += st[0]
+        st_states += st[1]
+        nh += n
+        all_jobs += history_jobs(leaves, ops, catname, "mc")
+    for name, jobs in jobs_by_name.items():
+        all_jobs += jobs
+    traces = replay_all(all_jobs)
+    r = validate(traces, "val-" + prop)
+    nontrivial = set()
+    for t in traces:
+        if any(e["res"] == "ok" and e["op"]["k"] in ("rm", "disc", "ren") for e in t["ev"]) or \
+                sum(1 for e in t["ev"] if e["res"] == "ok") >= 2:
+            nontrivial.add(json.dumps(t["src"], sort_keys=True))
+    out.add_cov(states=st_states + r["states"], transitions=st_trans + r["states"],
+                spec_states=st_states, spec_transitions=st_trans, spec_histories=nh,
+                traces_validated_against_impl=len(traces), events_validated=r["states"],
+                evaluations=len(traces), distinct_nontrivial=len(nontrivial),
+                rule="histories of add/rm/disconnect/rename enumerated by TLC from MC_Gfa "
+                     "(every maximal history up to the depth) plus seeded random and document-first "
+                     "histories; non-trivial = distinct history with a successful removal/rename or "
+                     ">= 2 successful calls")
+    by_id = r["by_id"]
+    seen_first = set()
+    for tid, ev, clauses, phase in r["rejects"]:
+        t = by_id.get(tid)
+        kind = t["kind"] if t else "?"
+        props = attribute(clauses, kind)
+        if prop in props:
+            mine = sorted(c for c in clauses if prop in attribute([c], kind))
+            out.violations.append(dict(
+                family="core", clauses=mine, all_clauses=clauses, event=ev, phase=phase, trace=tid,
+                cfg=t["cfg"] if t else None, ops=(t["src"][:ev] if t else []),
+                res=[e["res"] + (":" + e["exc"] if e["exc"] else "") for e in (t["ev"][:ev] if t else [])],
+                what="clauses %s at call %d" % (",".join(mine), ev)))
+        for p in props - {prop}:
+            out.others[p] = out.others.get(p, 0) + 1
+    for t in traces[:3]:
+        out.samples.append({"trace": t["id"], "cfg": t["cfg"],
+                            "calls": [[o["k"], o["text"] or [o["id"], o["id2"]], e["res"]]
+                                      for o, e in zip(t["src"], t["ev"])]})
+    return traces, r
